@@ -1148,6 +1148,251 @@ def w_port_dirs(task):
     return out
 
 
+# --------------------------------------------------------------------------- leg D4: wrapped buffers
+WRAPPERS = ("en", "rst", "ren")      # EnableInserter(en_k), ResetInserter(rst_k), DomainRenamer({"sync": "other"})
+
+
+def wrap_combos():
+    """one wrapper, or two nested (innermost first); renaming twice is the same as once"""
+    return [[a] for a in WRAPPERS] + [[a, b] for a in WRAPPERS for b in WRAPPERS if (a, b) != ("ren", "ren")]
+
+
+def wrap_model(wrappers):
+    """-> (domain the FFBuffer registers end up in, indices of the enables that gate them).
+    docs/guide `lang-controlinserter`: controls are keyed by domain name ("sync" here) and apply to the logic that is in
+    that domain at the point of application; EnableInserter: registers change only while every enable is 1;
+    ResetInserter: reset-less signals (the FFBuffer registers are) are not affected; DomainRenamer moves the logic."""
+    cur, enables, k = "sync", [], {"en": 0, "rst": 0}
+    for wname in wrappers:
+        if wname == "ren":
+            if cur == "sync":
+                cur = "other"
+        else:
+            if wname == "en" and cur == "sync":
+                enables.append(k["en"])
+            k[wname] += 1
+    return cur, enables
+
+
+def _wrap_build(case):
+    from amaranth.hdl import Module, ClockDomain, IOPort, Signal, EnableInserter, ResetInserter, DomainRenamer
+    from amaranth.lib import io
+    kind, w, mask, cls, bufdir = case["kind"], case["w"], case["mask"], case["cls"], case["bufdir"]
+    inv = tuple(bool((mask >> j) & 1) for j in range(w))
+    if kind == "se":
+        iop = {"io": IOPort(w, name="pw")}
+        port = io.SingleEndedPort(iop["io"], invert=inv)
+    else:
+        iop = {"p": IOPort(w, name="pwp"), "n": IOPort(w, name="pwn")}
+        port = io.DifferentialPort(iop["p"], iop["n"], invert=inv)
+    m = Module()
+    cds = {"sync": ClockDomain("sync"), "other": ClockDomain("other")}
+    m.domains += cds.values()
+    ctl = {"en": [], "rst": []}
+    wrapfns = []
+    for wname in case["wrappers"]:
+        if wname == "ren":
+            wrapfns.append(DomainRenamer({"sync": "other"}))
+        else:
+            sig = Signal(name=f"{wname}{len(ctl[wname])}")
+            ctl[wname].append(sig)
+            wrapfns.append((EnableInserter if wname == "en" else ResetInserter)(sig))
+    buf = getattr(io, cls)(bufdir, port)
+    inner_w, outer_w = wrapfns[:-1], wrapfns[-1]
+    x = buf
+    if case["place"] == "c":
+        mid = Module()
+        mid.submodules.buf = x
+        x = mid
+    for f in (inner_w if case["place"] != "a" else []):
+        x = f(x)
+    if case["place"] == "a":
+        for f in inner_w:
+            x = f(x)
+    else:
+        box = Module()
+        box.submodules.inner = x
+        x = box
+    m.submodules.wrapped = outer_w(x)
+    sig = {}
+    ports = []
+    if bufdir != "o":
+        sig["i"] = Signal(w, name="s_i")
+        m.d.comb += sig["i"].eq(buf.i)
+        ports.append(sig["i"])
+    if bufdir != "i":
+        sig["o"], sig["oe"] = Signal(w, name="s_o"), Signal(1, name="s_oe")
+        m.d.comb += [buf.o.eq(sig["o"]), buf.oe.eq(sig["oe"])]
+        ports += [sig["o"], sig["oe"]]
+    ports += ctl["en"] + ctl["rst"] + [cds["sync"].clk, cds["sync"].rst, cds["other"].clk, cds["other"].rst]
+    return m, ports, sig, ctl, iop, cds
+
+
+class _Adapter:
+    """uniform access to the netlist evaluator / the RTLIL evaluator of one wrapped-buffer design"""
+    def __init__(self, which, e, sig, ctl, iop, cds, pidx, kind):
+        self.which, self.e, self.sig, self.ctl, self.iop, self.cds, self.pidx = which, e, sig, ctl, iop, cds, pidx
+        self.true_half = "io" if kind == "se" else "p"
+        self.nir = which == "nir"
+        for cd in cds.values():
+            self.set(cd.clk, 0)
+            self.set(cd.rst, 0)
+
+    def set(self, signal, v):
+        if self.nir:
+            if signal in self.e.nl.signals:
+                self.e.set_signal(signal, v)
+        else:
+            self.e.set_top("\\" + signal.name, v)
+
+    def apply(self, val, w):
+        for name in ("o", "oe"):
+            if name in self.sig:
+                self.set(self.sig[name], val[name])
+        for k, s_ in enumerate(self.ctl["en"]):
+            self.set(s_, val["en"][k])
+        for k, s_ in enumerate(self.ctl["rst"]):
+            self.set(s_, val["rst"][k])
+        for j in range(w):
+            if self.nir:
+                self.e.set_pad(self.pidx.get(id(self.iop[self.true_half])), j, _bit(val["pad"], j))
+            else:
+                self.e.ext[self.e.find(((), "\\" + self.iop[self.true_half].name, j))] = _bit(val["pad"], j)
+
+    def observe(self, w):
+        memo = {}
+        drv = self.e.drivers(memo) if self.nir else None
+        d = {}
+        for h, p in self.iop.items():
+            for j in range(w):
+                d[(h, j)] = drv.get((self.pidx.get(id(p)), j), []) if self.nir else self.e.pad_drivers("\\" + p.name, j, memo)
+        i = None
+        if "i" in self.sig:
+            i = self.e.value(self.e.sig_nets(self.sig["i"]), memo) if self.nir else self.e.top_value("\\s_i", memo)
+        return d, i
+
+    def tick(self, dom):
+        cd = self.cds[dom]
+        if self.nir:
+            return self.e.tick(cd.clk) if cd.clk in self.e.nl.signals else 0
+        return self.e.tick("\\" + cd.clk.name)
+
+
+def _wrap_case(case, out):
+    from amaranth.hdl._ir import Fragment, build_netlist
+    from amaranth.back import rtlil
+    from ..ref.c18_netlist import NirEval, RtlilEval, parse_rtlil
+    kind, w, mask, cls, bufdir = case["kind"], case["w"], case["mask"], case["cls"], case["bufdir"]
+    wr = ">".join(case["wrappers"])
+    tag = f"{cls}({bufdir}) on a {kind} port (width {w}, invert mask {mask:0{w}b}) wrapped [{wr}] (innermost first), placement {case['place']}"
+    sigbase = f"{cls}:{bufdir}:{kind}:w{w}:{case['place']}:{wr}"
+    out["cov"]["evaluations"] += 1
+    _inc(out, "wrap_designs")
+    if bufdir != "i" and any(x in ("en", "rst") for x in case["wrappers"]):
+        _inc(out, "wrap_driving_designs_under_control_inserters")
+        out["cov"]["distinct_nontrivial"] += 1
+    m, ports, sig, ctl, iop, cds = _wrap_build(case)
+    nl = build_netlist(Fragment.get(m, None), ports=ports, name="top")
+    ev = NirEval(nl)
+    pidx = {id(p): k for k, p in enumerate(nl.io_ports)}
+    bad = _wrap_explore(case, _Adapter("nir", ev, sig, ctl, iop, cds, pidx, kind), out)
+    if bad:
+        _viol(out, f"net:wrapped:nir:{sigbase}:{bad[0]}", f"{tag}: fine netlist: {bad[1]}", case)     # the RTLIL is judged on its own
+    m2, ports2, sig2, ctl2, iop2, cds2 = _wrap_build(case)
+    text, _n = rtlil.convert_fragment(Fragment.get(m2, None), ports=ports2, name="top", emit_src=False)
+    _inc(out, "wrap_rtlil_texts")
+    try:
+        rv = RtlilEval(parse_rtlil(text), "\\top")
+        bad = _wrap_explore(case, _Adapter("rtlil", rv, sig2, ctl2, iop2, cds2, None, kind), out)
+    except Exception as e:      # noqa: BLE001
+        bad = ("malformed", f"the emitted RTLIL cannot be interpreted: {type(e).__name__}: {e}")
+    if bad:
+        _viol(out, f"net:wrapped:rtlil:{sigbase}:{bad[0]}", f"{tag}: RTLIL: {bad[1]}", case)
+
+
+def _wrap_explore(case, ad, out):
+    """Buffer: every (o, oe, pad, controls) valuation.  FFBuffer: BFS over (evaluator registers x register model),
+    every valuation followed by an edge of either clock."""
+    kind, w, mask, cls, bufdir = case["kind"], case["w"], case["mask"], case["cls"], case["bufdir"]
+    ff = cls == "FFBuffer"
+    drive, sense = bufdir != "i", bufdir != "o"
+    dom, enables = wrap_model(case["wrappers"])
+    n_en, n_rst = case["wrappers"].count("en"), case["wrappers"].count("rst")
+    vals = []
+    for o in (range(1 << w) if drive else [0]):
+        for oe in ((0, 1) if drive else [0]):
+            for pad in (range(1 << w) if sense else [0]):
+                for c in range(1 << (n_en + n_rst)):
+                    vals.append({"o": o, "oe": oe, "pad": pad, "en": [_bit(c, k) for k in range(n_en)],
+                                 "rst": [_bit(c, n_en + k) for k in range(n_rst)]})
+    halves = (("io", 0),) if kind == "se" else (("p", 0), ("n", 1))
+    e = ad.e
+    root = (e.get_state(), (0, 0, 0))
+    seen, frontier, trans = {root}, [root], 0
+    while frontier:
+        nxt = []
+        for st, regs in frontier:
+            i_reg, o_reg, oe_reg = regs
+            for val in vals:
+                e.set_state(st)
+                ad.apply(val, w)
+                drv, got_i = ad.observe(w)
+                o_eff, oe_eff = (o_reg, oe_reg) if ff else (val["o"], val["oe"])
+                samp = 0
+                for j in range(w):
+                    inv = (mask >> j) & 1
+                    for h, neg in halves:
+                        expd = [((_bit(o_eff, j) ^ inv) ^ neg, oe_eff)] if drive else []
+                        if drv[(h, j)] != expd:
+                            return (f"drive_{h}", f"inputs {val}, register model (i,o,oe)={regs}: port {ad.iop[h].name} bit {j} is driven by "
+                                    f"(value, enable) {drv[(h, j)]}, want {expd}")
+                    port_in = (_bit(o_eff, j) ^ inv) if (bufdir == "io" and oe_eff) else _bit(val["pad"], j)
+                    samp |= (port_in ^ inv) << j
+                if sense and got_i != (i_reg if ff else samp):
+                    return ("i", f"inputs {val}, register model (i,o,oe)={regs}: buffer i = {got_i:b}, want {(i_reg if ff else samp):b}")
+                trans += 1
+                if not ff:
+                    continue
+                for clock in ("sync", "other"):
+                    e.set_state(st)
+                    ad.tick(clock)
+                    if clock == dom and all(val["en"][k] for k in enables):
+                        regs2 = (samp if sense else 0, val["o"] if drive else 0, val["oe"] if drive else 0)
+                    else:
+                        regs2 = regs
+                    key = (e.get_state(), regs2)
+                    trans += 1
+                    if key not in seen:
+                        seen.add(key)
+                        nxt.append(key)
+        frontier = nxt
+    _inc(out, "wrap_states", len(seen))
+    _inc(out, "wrap_transitions", trans)
+    out["cov"]["evaluations"] += trans
+    return None
+
+
+def wrap_cases(quick):
+    cases = []
+    for kind in ("se", "diff"):
+        for cls in ("Buffer", "FFBuffer"):
+            for w in ((1, 2) if (cls == "Buffer" or not quick) else (1,)):
+                for bufdir in DIRS:
+                    for place in ("a", "b", "c"):
+                        for wr in wrap_combos():
+                            cases.append({"leg": "wrap", "kind": kind, "w": w, "mask": 0b01 if w == 2 else 1, "cls": cls,
+                                          "bufdir": bufdir, "place": place, "wrappers": wr})
+    return cases
+
+
+def w_wrap(cases):
+    warnings.simplefilter("ignore")
+    out = _new_out()
+    for case in cases:
+        wrap_case(case, out)
+    return out
+
+
 def _guarded(fn, prefix):
     """anything the legs do to a legal design must work: an exception escaping from amaranth is a finding,
     not a harness error (the exception class is part of the signature)"""
@@ -1160,7 +1405,9 @@ def _guarded(fn, prefix):
             inside = [f for f in tb if "/amaranth/" in f.filename]
             if not inside:
                 raise               # a bug of the check itself stays a harness error
-            if "term" not in case:
+            if "wrappers" in case:
+                ts = f"w{case['w']}:{case['place']}:{'>'.join(case['wrappers'])}"
+            elif "term" not in case:
                 ts = "+".join(f"[{a}:{e}]={d}" for a, e, d in case["parts"]) + f":w{case['w']}"
                 case = dict(case, bufdir="per-slice")
             else:
@@ -1174,10 +1421,11 @@ def _guarded(fn, prefix):
 sim_case = _guarded(_sim_case, "simbuf")
 net_case = _guarded(_net_case, "net")
 dirs_case = _guarded(_dirs_case, "net:multi")
+wrap_case = _guarded(_wrap_case, "net:wrapped")
 
 
 # =============================================================================================== driver
-WORKERS = {"A": w_algebra, "Amix": w_algebra_mixed, "B": w_sim, "C": w_ff, "D": w_net, "D2": w_two_buffers, "D3": w_port_dirs}
+WORKERS = {"A": w_algebra, "Amix": w_algebra_mixed, "B": w_sim, "C": w_ff, "D": w_net, "D2": w_two_buffers, "D3": w_port_dirs, "D4": w_wrap}
 
 
 def _dispatch(t):
@@ -1215,6 +1463,8 @@ def run(rep):
     for kind in ("se", "diff"):
         for w in (2, 3, 4):
             tasks.append(("D3", (kind, w, rep.quick)))
+    for ch in chunks(wrap_cases(rep.quick), 24):
+        tasks.append(("D4", ch))
     tasks = rotate(tasks, rep.seed)
     flags = set()
     for part in pmap(_dispatch, tasks, rep.procs):
@@ -1249,7 +1499,11 @@ def run(rep):
                "double use -> DriverConflict. D3: real ports of width 2..4 partitioned into 1..3 contiguous slices, every assignment of "
                "{unused, i, o, io} Buffers (FFBuffers for every 4th design in quick) to the slices: the direction declared for the top-level port "
                "in the netlist and in the RTLIL text is the join of the using buffers' directions (all i -> input, all o -> output, otherwise inout; "
-               "complement half: output iff some o/io buffer), one cell per bit, and every valuation through netlist and RTLIL. non-trivial = derived (non-base) non-empty expression / simulated or converted case with a "
+               "complement half: output iff some o/io buffer), one cell per bit, and every valuation through netlist and RTLIL. D4: Buffer (width 1..2) / "
+               "FFBuffer (width 1; thorough 1..2) i/o/io on real ports wrapped directly / one / two modules up by EnableInserter, ResetInserter, "
+               "DomainRenamer(sync->other) and every nesting of two: netlist and RTLIL, every (o, oe, pad, en/rst) valuation; Buffer behaviour is "
+               "independent of the controls, FFBuffer by BFS with an edge of either clock after every valuation against the documented rules "
+               "(enable gates the registers, reset-less registers ignore inserted resets, the renamer moves them to the other clock). non-trivial = derived (non-base) non-empty expression / simulated or converted case with a "
                "non-zero inversion mask / reachable FFBuffer product state / overlapping two-buffer pair")
     rep.setcov("bounds", {
         "base_ports": "width 0..3, all masks, directions i/o/io (45 per port class)",
@@ -1277,6 +1531,8 @@ def run(rep):
             "net_rtlil_two_port_continuing_index_concats": "RTLIL of a[x:y]+b[y:z] over two different I/O ports", "net_illegal_pairs": "illegal pairs on real ports",
             "dirs_mixed_i_o_designs": "one real port buffered as input on one slice and output on another",
             "dirs_rtlil_texts": "multi-buffer RTLIL texts", "dirs_valuations": "multi-buffer valuations",
+            "wrap_driving_designs_under_control_inserters": "o/io buffers on real ports under EnableInserter/ResetInserter",
+            "wrap_rtlil_texts": "RTLIL texts of wrapped buffers", "wrap_transitions": "wrapped-buffer valuations / edges",
             "two_buffers_conflict": "overlapping two-buffer designs", "two_buffers_disjoint": "disjoint two-buffer designs",
             "ff_states": "FFBuffer product states", "ff_traces_validated": "BFS traces replayed from reset"}
     # a run that already reports violations is not a pass; guards whose counters sit behind a failing step
@@ -1302,6 +1558,8 @@ def replay(payload):
         sim_case(payload, out)
     elif leg == "net":
         net_case(payload, out)
+    elif leg == "wrap":
+        wrap_case(payload, out)
     elif leg == "dirs":
         dirs_case(payload, out)
     elif leg == "ffzero":
